@@ -261,8 +261,13 @@ class BlockSeries:
             if isinstance(order, slice):
                 if order.stop is None:
                     raise IndexError("Cannot evaluate infinite series")
-                if isinstance(order.start, int) and order.start < 0:
+                if any(
+                    isinstance(bound, (int, np.integer)) and bound < 0
+                    for bound in (order.start, order.stop)
+                ):
                     raise IndexError("Cannot evaluate negative order")
+            elif np.any(np.asarray(order) < 0):
+                raise IndexError("Cannot evaluate negative order")
 
     def _check_number_perturbations(self, item: tuple[OneItem, ...]):
         """Check that the number of indices is correct.
